@@ -1179,9 +1179,9 @@ class Pulse(Function):
 
     def term(self, time="t"):
         if self.interval.element == 0.0:
-            return "(({}/{}) if {}=={} else 0.0)".format(self.volume.term(time), self.model.dt, time, self.first_pulse.term(time))
+            return "(({volume}/{dt}) if abs(({time})-({first_pulse})) < {dt}/2 else 0.0)".format(volume=self.volume.term(time), dt=self.model.dt, time=time, first_pulse=self.first_pulse.term(time))
         else:
-            return "(({volume}/{dt}) if (({time}-{first_pulse}) >= 0 and (({time}-{first_pulse})%({interval}))==0) else 0.0)".format(volume=self.volume.term(time), dt=self.model.dt, time=time, first_pulse=self.first_pulse.term(time), interval=self.interval.term(time))
+            return "(({volume}/{dt}) if ((({time})-({first_pulse})) > -{dt}/2 and abs((({time})-({first_pulse})) - ({interval})*round((({time})-({first_pulse}))/({interval}))) < {dt}/2) else 0.0)".format(volume=self.volume.term(time), dt=self.model.dt, time=time, first_pulse=self.first_pulse.term(time), interval=self.interval.term(time))
 
 
 class Trend(Function):
